@@ -1,5 +1,5 @@
 """A3 shared machinery: site inventory with stable keys, automatic discharge rules, reviewed-exception table."""
-import json, os, re
+import json, re, os, re
 from .. import mir as M, panics as P
 from ..report import VERIF
 
@@ -538,11 +538,57 @@ def call_graph(world):
                     e.add(n)
                 elif c.get("fn") in world.fn_index:
                     e.add(c["fn"])
+                else:
+                    e.update(_bridge(world, c.get("fn") or "", c.get("fnargs") or []))
+                # fn items passed as values (`.map(TryInto::try_into)`, `.and_then(parse_x)`)
+                for o in c["args"]:
+                    if o.get("k") == "const" and o.get("fn"):
+                        if o.get("res") in world.fn_index:
+                            e.add(o["res"])
+                        elif o["fn"] in world.fn_index:
+                            e.add(o["fn"])
+                        else:
+                            e.update(_bridge(world, o["fn"], o.get("fnargs") or []))
             for b in body["blocks"]:
                 for st in b["s"]:
                     if st[0] == "=" and st[2][0] == "agg" and st[2][1].get("k") == "closure":
                         e.add(st[2][1]["def"])
     return edges
+
+
+_BRIDGES = {   # core blanket impls that dispatch to a (possibly workspace) trait impl: callee -> (trait, method, self index, param index)
+    "core::convert::TryInto::try_into": ("core::convert::TryFrom", "try_from", 1, 0),
+    "core::convert::Into::into": ("core::convert::From", "from", 1, 0),
+}
+
+
+_IMPL_INDEX = {}
+
+
+def _impl_index(world):
+    """(trait, param type, self type, method) -> fn path, for both spellings rustc uses for impl items."""
+    key = id(world)
+    if key not in _IMPL_INDEX:
+        idx = {}
+        for p in world.fn_index:
+            m = re.match(r"^<(.+) as ([\w:]+)<(.+)>>::(\w+)$", p)
+            if m:
+                idx[(m.group(2), m.group(3), m.group(1), m.group(4))] = p
+                continue
+            m = re.search(r"<impl ([\w:]+)<(.+)> for (.+)>::(\w+)$", p)
+            if m:
+                idx[(m.group(1), m.group(2), m.group(3), m.group(4))] = p
+        _IMPL_INDEX[key] = idx
+    return _IMPL_INDEX[key]
+
+
+def _bridge(world, fn, fnargs):
+    b = _BRIDGES.get(fn)
+    if not b or len(fnargs) < 2:
+        return set()
+    trait, meth, si, pi = b
+    hit = _impl_index(world).get((trait, fnargs[pi], fnargs[si], meth))
+    return {hit} if hit else set()
 
 
 def recursive_sccs(edges):
